@@ -72,6 +72,26 @@ def generate(ctx):
                 states.append(dict(arcs=G.acc_to_hex(a), start=st, walk=w, edit=["S", p, rng.choice([c for c in "ACGT" if c != w[p]])]))
         if len(states) >= 2:
             yield "edit_sequence", dict(k=k, states=states)
+    for _ in range(ctx.pick(60, 600)):
+        # valid graphs (connect_valid_graph keeps vertices without successors): walks that run into such a vertex and stop there
+        k = rng.choice([2, 3, 3, 4])
+        mask = np.array(gens.rand_mask(rng, k, rng.choice([0.45, 0.55, 0.65, 0.75])), dtype=bool)
+        if not mask.any():
+            continue
+        try:
+            acc = np.asarray(dsw.connect_valid_graph(k, mask))
+        except ValueError:
+            continue
+        live = G.live_vertices(acc)
+        if not live:
+            continue
+        for _w in range(6):
+            start = int(rng.choice(live))
+            want = rng.choice([5 * k + 6, 9 * k + 8, 14 * k + 10])
+            w = G.random_walk(acc, start, want, rng)
+            if len(w) >= 3 * k + 2 and len(w) < want:          # the walk ended in a vertex without arcs
+                yield "single_edits", dict(gens.graph_case(acc, k), t=0, fam="valid-graph walk ending in a dead end", start=start, walk=w,
+                                           check=rng.choice([0, 0, 3]))
     ks = ctx.pick([1, 2, 2, 3, 3, 4], [1, 2, 2, 3, 3, 4, 4, 5])
     for _ in range(ctx.pick(40, 500)):
         k = rng.choice(ks)
@@ -203,7 +223,11 @@ def _judge(ctx, dsw, case, acc, k, w, edits, check_len, has_indel, sub_name):
     sub = dict(k=k, arcs=case["arcs"], start=start, walk=w, edits=edits, check=check_len, indel=has_indel)
     # "unrestrictive": a large float, a large int, or no limit at all
     heap = [HEAP, HEAP, 10 ** 9, "inf"][(len(corrupted) + len(edits) + (edits[0][1] if edits else 0)) % 4]
-    kind, res, _r, steps = call_repair(dsw, corrupted, acc, start, k, check=check, has_indel=has_indel, heap=heap)
+    # the flag as callers hold it: a literal, a numpy bool (the outcome of a comparison), 0 / 1
+    form = (len(corrupted) + len(w)) % 3
+    flag = ((True, np.bool_(True), 1) if has_indel else (False, np.bool_(False), 0))[form]
+    kind, res, _r, steps = call_repair(dsw, corrupted, acc, start, k, check=check, has_indel=flag, heap=heap)
+    ctx.cls("indel flag passed as %s" % ("a literal", "numpy.bool_", "0 / 1")[form])
     ctx.cls("heap limit|%s" % heap)
     where = "k=%d start=%s walk=%s edits=%s corrupted=%s check=%s has_indel=%s graph=%s" % (
         k, G.kmer(start, k), w, edits, corrupted, check, has_indel, case["arcs"])
@@ -284,7 +308,7 @@ def floors(agg, tier):
                 out.append("k=%d: detection delay %d observed %d < 5" % (k, d, c.get("k=%d|detection delay %d" % (k, d), 0)))
     if c.get("multi-edit|detected == |E|", 0) < 3000:
         out.append("multi-edit sets with detected == |E| observed %d < 3000" % c.get("multi-edit|detected == |E|", 0))
-    for name, need in (("has_indel=False", 200), ("heap limit|inf", 2000), ("heap limit|1000000000", 2000), ("check|supplied", 200), ("edit|I detected", 200), ("edit|D detected", 100)):
+    for name, need in (("has_indel=False", 200), ("heap limit|inf", 2000), ("indel flag passed as numpy.bool_", 5000), ("indel flag passed as 0 / 1", 5000), ("family|valid-graph walk ending in a dead end", 1000), ("heap limit|1000000000", 2000), ("check|supplied", 200), ("edit|I detected", 200), ("edit|D detected", 100)):
         if c.get(name, 0) < need:
             out.append("%s observed %d < %d" % (name, c.get(name, 0), need))
     return out
